@@ -260,6 +260,19 @@ func (w *c18aWorld) Run(c *kernel.RunCtx) {
 	for i := range clockTimes {
 		clockTimes[i] = simEpoch.Add(time.Duration(c.Range(-2, 14))*time.Hour + time.Duration(c.Choose(3600))*time.Second).Unix()
 	}
+	// some expiries are EXACTLY an instant the clock shows (its start value or one of its later settings): a quote
+	// that expires now has not expired yet
+	for t := range plans {
+		for k := range plans[t] {
+			if op := &plans[t][k]; op.in.Kind == "QUpdateExpiry" && c.Bool(1, 5) {
+				op.in.Time = simEpoch.Unix()
+				if nclock > 0 && c.Bool(2, 3) {
+					op.in.Time = clockTimes[c.Choose(nclock)]
+				}
+				c.Count("probe.expiry_equal_to_a_clock_value", 1)
+			}
+		}
+	}
 	c.End()
 	// ---- tasks ----
 	var history []porcupine.Operation
